@@ -40,11 +40,40 @@
 // manager's announced next certificate; instants in (NotAfter, NotAfter+1s) are "don't care" for the verifier
 // (X.509 times have second granularity); for multi-certificate chains only rejection is asserted.
 //
-// Sensitivity (mutations applied one at a time to overlay copies of cert_manager.go / crypto.go, never /repo):
-// see the table at the end of this comment block, filled in from actual runs.
-//
-// MUTATIONS-TABLE-BEGIN
-// MUTATIONS-TABLE-END
+// Sensitivity: mutations applied one at a time to overlay copies of cert_manager.go / crypto.go / transport.go /
+// multiaddr.go (merged into a private copy of the mode-B overlay; /repo never edited), 4 workers x 10-15 s each.
+// Every breaking mutation was reported within the first few hundred runs (< 5 s); class that caught it:
+//   cert_manager.go
+//     AddrComponent() omits the next certificate            advertised/next-missing/addr, learned-addr/served-not-pinned/*
+//     SerializedCertHashes() omits the next certificate     advertised/next-missing/serialized, learned-addr/hash-not-confirmed/same-incarnation
+//     previous hash dropped from SerializedCertHashes()     learned-addr/hash-not-confirmed/same-incarnation
+//       one period early (lastConfig not listed)
+//     init(): no skew subtracted before bucketing           served/valid-since (start within skew of a boundary)
+//     init(): skew-1ms subtracted                           served/valid-since (start 1ns before a roll-over instant)
+//     init(): start not bucketed (NotBefore = now-skew)     learned-addr/served-not-pinned/after-restart
+//     bucket width certValidity instead of validity-2*skew  learned-addr/served-not-pinned/after-restart
+//     rollConfig: next starts at End-1*skew                 served/valid-since, learned-addr/served-not-pinned/after-restart
+//     rollConfig: next certificate 1 h shorter              determinism/same-bucket-different-cert
+//     first timer / timer reset at End instead of End-skew  served/valid-until, advertised/next-missing/*
+//     timer reset 1 ms late / 1 ms early                    served/valid-until / served/valid-since (samples 1ns around the roll-over)
+//   transport.go
+//     certValidity = 15 days                                served/lifetime
+//   multiaddr.go
+//     addrComponentForCert tags the digest as sha3-256      advertised/served-missing/addr
+//   crypto.go
+//     deterministicSigner passes the rand reader on         determinism/same-bucket-different-cert (hedged ECDSA signature)
+//     verifyRawCerts: lifetime check removed                verifier/accepted/lifetime-over-14-days
+//     verifyRawCerts: lifetime check >= instead of >        verifier/rejected-valid
+//     verifyRawCerts: NotAfter check removed / +1 h         verifier/accepted/expired
+//     verifyRawCerts: NotBefore check removed               verifier/accepted/not-yet-valid
+//     verifyRawCerts: all RSA checks removed                verifier/accepted/rsa (+ rsa-pss, rsa-subject-key)
+//     verifyRawCerts: PublicKeyAlgorithm check removed      verifier/accepted/rsa-subject-key
+//     verifyRawCerts: multihash code not compared           verifier/accepted/hash-not-listed-as-sha2-256
+//     verifyRawCerts: last instead of first certificate     verifier/accepted/chain-pinned-cert-not-first
+//   Not caught, by design: key-derived offset dropped (getCurrentBucketStartTime(start, 0)) — all hosts then rotate
+//   at the same instants, which the statement does not forbid (equivalent mutant for this property).
+// Found on the pinned tree by this harness before the fixes 42df5f3 / 581fd0e: chain-pinned-cert-not-first,
+// rsa-pss, rsa-subject-key (all three classes are silent on the fixed tree).
 package libp2pwebtransport
 
 import (
@@ -549,6 +578,9 @@ func vsTrajectory(t *testing.T, tape *simrt.Tape, g simrt.Gen, o *common.Outcome
 					limit = W.Add(period - 1)
 				}
 			}
+			if !now.Before(limit) {
+				continue // roll-over budget used up and already 1ns before the next one: nothing new to sample
+			}
 			var target time.Time
 			var adesc string
 			switch g.Weighted(2, 3, 3, 3, 3, 2, 2, 3, 1) {
@@ -612,7 +644,7 @@ func vsTrajectory(t *testing.T, tape *simrt.Tape, g simrt.Gen, o *common.Outcome
 		finished = true
 	})
 	o.Sched = res
-	o.Virtual = res.Virtual
+	o.Virtual = vsVirtual(res.Virtual)
 	o.Sig = "T:" + tr.sig.String()
 	if res.Panic != "" {
 		o.Violate("C18/panic", "%s", vsFirstLines(res.Panic, 12))
@@ -969,7 +1001,7 @@ func vsVerifier(t *testing.T, tape *simrt.Tape, g simrt.Gen, o *common.Outcome) 
 		finished = true
 	})
 	o.Sched = res
-	o.Virtual = res.Virtual
+	o.Virtual = vsVirtual(res.Virtual)
 	o.Sig = "V:" + sig.String()
 	if res.Panic != "" {
 		o.Violate("C18/panic", "%s", vsFirstLines(res.Panic, 12))
@@ -984,6 +1016,20 @@ func vsVerifier(t *testing.T, tape *simrt.Tape, g simrt.Gen, o *common.Outcome) 
 	}
 	// non-trivial: at least one certificate / hash-list pair was judged
 	o.Nontrivial = cases > 0
+}
+
+// vsVirtual: one run covers weeks to decades of virtual time and the worker adds the nanoseconds of all runs
+// into one int64, which would wrap after roughly a thousand runs. Once this process has reported 140 years the
+// harness reports 0 for further runs, so the evidence's simulated_time_s is a lower bound instead of garbage.
+var vsVirtualTotal time.Duration
+
+func vsVirtual(d time.Duration) time.Duration {
+	const ceiling = 140 * 365 * vsDay
+	if d < 0 || vsVirtualTotal+d > ceiling || vsVirtualTotal+d < 0 {
+		return 0
+	}
+	vsVirtualTotal += d
+	return d
 }
 
 // vsScrub keeps only the kind of a verifier error (its text may contain hash bytes).
